@@ -192,7 +192,10 @@ class Route:
         filters = []
         filters_out = []
         anon_counter = 0
-        for part, param, filter, filter_args, filter_selector in cls.parser.iter_parse(rule):
+        # the parser keeps the rule it is working on in itself, and rules are parsed while requests are
+        # being served too (`router[{rule}]`, registration from a handler): one parser per call
+        parser = type(cls.parser)()
+        for part, param, filter, filter_args, filter_selector in parser.iter_parse(rule):
             filter_selector = filter_selector or ''
             if not part:  # it is param or/and filter
                 part = '\r'
